@@ -5,7 +5,7 @@
                        ["obj",[[k,t],..]] ["ptr",idx]
 -/
 import Lean.Data.Json
-import J2M.Generator
+import J2M.Pipeline
 namespace J2M.Codec
 open Lean (Json)
 
@@ -124,5 +124,53 @@ def decOracles (j : J) : Except String GenOracles := do
                   serStr := fun k => match ss.find? (·.1 == k) with
                     | some (_, s) => s
                     | none => StrOracle.default.serStr k } }
+
+
+def decTable (j : J) (what : String) : Except String (String → Option String) := do
+  let mut m : Std.HashMap String String := {}
+  for e in ← asArr (fieldD j what (.arr #[])) do
+    match (← asArr e).toList with
+    | [.str k, .str v] => m := m.insert k v
+    | _ => throw s!"bad table {what}"
+  let m' := m
+  pure (fun k => m'.get? k)
+
+def decNameOracles (j : J) : Except String NameOracles := do
+  pure { singUnder := ← decTable j "singUnder", camelize := ← decTable j "camelize" }
+
+def decLabelOracles (j : J) : Except String LabelOracles := do
+  let laz ← (← asArr (fieldD j "lowerAz" (.arr #[]))).toList.mapM (fun e => do
+    match (← asArr e).toList with
+    | [c, .bool b] => do pure ((← asNat c), b)
+    | _ => err "bad lowerAz")
+  pure { unidecode := ← decTable j "unidecode", stripW := ← decTable j "stripW",
+         underscore := ← decTable j "underscore",
+         lowerAz := fun c => (laz.find? (·.1 == c.toNat)).map (·.2) }
+
+def decCmps (j : J) : Except String (List Cmp) := do
+  (← asArr j).toList.mapM (fun e => do
+    match (← asArr e).toList with
+    | [.str "exact"] => pure Cmp.exact
+    | [.str "percent", n, d] => do pure (Cmp.percent (← asNat n) (← asNat d))
+    | [.str "number", n] => do pure (Cmp.number (← asNat n))
+    | [.str "table", e] => do pure (Cmp.table (← decPairs e))
+    | _ => err "bad cmp")
+
+def optStr : Option String → J
+  | some s => .str s
+  | none => .null
+
+def encGraph (g : Graph) : J :=
+  Lean.Json.mkObj [
+    ("models", .arr (g.models.map (fun m => Lean.Json.arr #[.str m.idx, encFields m.fields, optStr m.name,
+        match m.nameGen with | some b => .bool b | none => .null])).toArray),
+    ("ptrs", .arr (g.ptrs.map (fun p => Lean.Json.arr #[.str p.target, optStr p.parent, optStr p.field])).toArray),
+    ("counter", .num (Lean.JsonNumber.fromNat g.counter))]
+
+partial def encNode : Node → J
+  | .mk i ns => .arr #[.str i, .arr (ns.map encNode).toArray]
+
+def encRepl (r : List (String × List String)) : J :=
+  .arr (r.map (fun (i, ms) => Lean.Json.arr #[.str i, encStrs ms])).toArray
 
 end J2M.Codec
